@@ -303,6 +303,7 @@ def _fold(prog, g, c, h):
     ret_ids = [r + off for r in rets]
     cond_rets = []
     if shape == "cond":
+        g.nodes[c]["rets"] = list(ret_ids)      # lexical rules can ask which exits of the folded body make the condition false
         for r in ret_ids:
             m = g.nodes[r]
             cond_rets.append((r, m.get("val")))
